@@ -488,3 +488,36 @@ def r8(ctx):
                        f"calls {calls}" + ("" if not stores else f"; stores {[text(s) for s in stores]}"), idx.loc(node))
     if n < 2:
         raise AnalysisError(f"only {n} trace blocks found on the send/receive path")
+
+
+@rule("R-C01-9", min_instances=20, title="pure-Python masking folded on constants: every length 0..23 (all residues mod 4, multi-word carries), bytes and str key/data forms, equals cyclic XOR")
+def r9(ctx):
+    """Constant propagation through ABNF.mask -> _mask with array.array modelled as its bytes: a finite sample of the
+    value property (the general statement is not decided), exact for the lengths listed."""
+    idx = ctx.index
+
+    def arr(I, run, args, kwargs, node):
+        tc, init = I.resolve(run, args[0]), I.resolve(run, args[1])
+        if tc == C("B") and isinstance(init, C) and isinstance(init.v, (bytes, bytearray)):
+            return C(bytes(init.v))
+        raise AnalysisError(f"array.array({tc!r}, {init!r}) outside the modelled form")
+
+    I = Interp(idx, Config(stubs={"array.array": arr}))
+    q = "_abnf:ABNF.mask"
+    loc = idx.loc(idx.func(q).node)
+    key = bytes([0x37, 0xFA, 0x21, 0x3D])
+    for n in list(range(0, 24)) + [125, 126, 127, 255, 256, 1000]:
+        data = bytes((i * 37 + 11) % 256 for i in range(n))
+        want = bytes(b ^ key[i % 4] for i, b in enumerate(data))
+        forms = [("bytes", C(key), C(data))]
+        if n in (0, 5, 8):
+            forms.append(("str-key", C(key.decode("latin-1")), C(data)))
+            forms.append(("str-data", C(key), C(data.decode("latin-1"))))
+        for form, k, d in forms:
+            outs = I.explore(lambda run, k=k, d=d: I.call(run, I.make_fn(run, q), [k, d], {}, None))
+            ctx.paths += len(outs)
+            got = outs[0].value.v if len(outs) == 1 and outs[0].kind == "return" and isinstance(outs[0].value, C) else \
+                f"<{[(o.kind, o.exc_class or o.value) for o in outs][:2]}>"
+            ctx.ob(f"{q}:len={n}:{form}", got == want, "equals cyclic XOR" if got == want else
+                   f"masking {n} bytes ({form}) gives {got!r:.80}, cyclic XOR with the 4-byte key gives {want!r:.80}", loc)
+    # unmasking = masking (involution) is what the receive path relies on: same function, checked by R-C02-2 (xor term)
